@@ -225,8 +225,47 @@ func requireScheduler() bool {
 	return true
 }
 
+// seqSelfTest: the sequential mode of the lock shims (used by the deviation explorers) must report a
+// lock that is taken while held, list a lock that a call leaves held, and release it by force.
+func seqSelfTest() string {
+	verifrt.SetSequential(true)
+	defer verifrt.SetSequential(false)
+	var mu vsync.Mutex
+	leak := func() {
+		defer func() { recover() }()
+		mu.Lock()
+		panic("leaves the lock held")
+	}
+	leak()
+	if h := verifrt.SeqHeld(); len(h) != 1 {
+		return fmt.Sprintf("a leaked lock is not listed as held: %v", h)
+	}
+	func() {
+		defer func() { recover() }()
+		mu.Lock()
+	}()
+	if verifrt.SeqBlocked() == "" {
+		return "locking a held mutex in sequential mode was not reported"
+	}
+	verifrt.SeqForceRelease()
+	verifrt.SeqClear()
+	func() {
+		defer func() { recover() }()
+		mu.Lock()
+		mu.Unlock()
+	}()
+	if verifrt.SeqBlocked() != "" || len(verifrt.SeqHeld()) != 0 {
+		return "a lock released by force is still reported as held"
+	}
+	return ""
+}
+
 func selfCheck(r *ev.Run, replay string) {
 	n, ex, f := schedSelfTest()
+	if f == "" {
+		f = seqSelfTest()
+		n++
+	}
 	r.Set("states", ex)
 	r.Set("programs", n)
 	r.Set("evaluations", ex)
